@@ -9,16 +9,47 @@ CFG = dict(
     level='proof',
     trusted_base=COMMON_TRUSTED + [
         'modelled, not verified: numbat/src/tokenizer.rs as Model/Syntax.lean and the expression part of '
-        'numbat/src/parser.rs as Model/SyntaxParser.lean (level by level), number-literal conversion and '
-        'strip_and_escape as Model/SyntaxSexpr.lean',
-        'parameter of the model: the XID_Start / XID_Continue tables of the unicode-ident crate (supplied per input)',
+        'numbat/src/parser.rs as Model/SyntaxParser.lean (level by level, statement loop with error recovery), '
+        'number-literal conversion (str::parse::<f64>, i128 as f64) and strip_and_escape as Model/SyntaxSexpr.lean',
+        'parameter of the model: the XID_Start / XID_Continue tables of the unicode-ident crate (supplied per input '
+        'by the harness)',
+        'tools/gen_doc_precedence.py (extraction of the operator table of book/src/basics/operations.md)',
+        'the formalisation of the BNF of the parser module documentation as the relation Derives '
+        '(Model/SyntaxGrammar.lean) and, independently, as the Earley grammar of the harness',
     ],
-    assumptions=[],
+    assumptions=[
+        'the documented grammar is read with four corrections of the BNF text that the book itself implies: '
+        'factor ::= per_factor ((*|/) per_factor)*; `|>` is followed by a call; a juxtaposed operand starts with a '
+        'number, identifier, `?` or `(`; argument lists / list expressions may end in a comma (notes/C10.md)',
+        'parse_render covers juxtaposition whose right operand starts with a number, identifier or `?` '
+        '(`x! (y)` only by correspondence and corpus); parse_sound is about newline-free token lists',
+        'definitions (let/fn/unit/...), decorators, type annotations and string interpolation are outside the parser '
+        'model (token level only)',
+    ],
 )
 
 CLAIM = dict(
-    text='(stage 2) correspondence of the tokenizer/parser model with the real code; theorems follow',
+    text=('Machine-checked proof that the model of numbat\'s recursive-descent expression parser inverts a reference '
+          'printer that inserts parentheses only where the documented precedence table demands them: for every '
+          'well-formed surface tree (all operators with any spelling, implicit multiplication, per, unary minus/plus, '
+          'factorials, ^ and ^-, unicode exponents, comparisons, logic, conversions, conditionals, calls, field access, '
+          'lists, structs, |>, redundant parentheses) parse(render s) = the documented tree (parse_render, '
+          'parse_render_expr, parse_extra_parens) — this fixes precedence and associativity of every pair of '
+          'constructs; everything the parser accepts is a sentence of the BNF of the parser documentation with the '
+          'returned tree (parse_sound); the tokenizer reads back blank-separated simple tokens in every ASCII/Unicode '
+          'spelling (tokenize_unlex_partial) and no operator character is an identifier character. The table used by '
+          'the printer is proved equal to the table of book/src/basics/operations.md, re-extracted on every run '
+          '(doc_precedence_order). The model is tied to tokenizer.rs/parser.rs by a bit-exact correspondence run '
+          '(token streams, S-expressions of the AST incl. f64 bit patterns of literals, parse errors after recovery, '
+          'identifier character classes) and the implementation is checked directly against the documentation by '
+          'two model-independent oracles: rendered random trees must parse to themselves, and an Earley recogniser '
+          'of the BNF decides accept/reject for token soups.'),
     design_ref='DESIGN.md section 5 C10',
-    note='in progress',
-    technique='Lean 4 proof about a model of the recursive-descent parser + differential correspondence',
+    note=('Trusted: Lean kernel (axioms propext, Classical.choice, Quot.sound only; decide +kernel in the table '
+          'obligation), the hand-written models and their correspondence harness, the extraction script, the '
+          'formalisation of the BNF. Partial: the lexer lemma (simple tokens, blank-separated); definitions, type '
+          'annotations and string interpolation are not in the parser model.'),
+    technique=('Lean 4 proof (structural induction over surface trees with a loop-form invariant for the '
+               'left-recursive levels; fuel-indexed soundness induction) + regenerated documentation table + '
+               'differential correspondence of the compiled model against numbat\'s tokenizer and parser'),
 )
